@@ -100,7 +100,12 @@ class _Worker:
             line, self.buf = self.buf.split(b"\n", 1)
             s = line.decode("utf-8", "replace")
             if s.startswith(MARK):
-                return json.loads(s[len(MARK):])
+                res = json.loads(s[len(MARK):])
+                if isinstance(res, dict) and res.pop("_retire", False):
+                    # the observation asks for a fresh process for whoever comes next (it exercised behaviour that may have left
+                    # the process in an undefined state - a later case must not inherit a corrupted heap and be blamed for it)
+                    self.kill()
+                return res
         rc = self.p.poll()
         if rc is not None:
             time.sleep(0.05)
